@@ -444,7 +444,17 @@ async fn c18_script(line: &str, pki: &Pki) -> String {
             }
             "D" => {
                 let c = &mut conns[k];
-                c.fut = None;
+                // every other drop happens while the thread unwinds from a panic (the future is owned by a closure that panics):
+                // still the drop of the future — the handshake slot it holds must be released and the parked caller woken
+                let f = c.fut.take();
+                if k % 2 == 1 {
+                    let _ = std::panic::catch_unwind(std::panic::AssertUnwindSafe(move || {
+                        let _owned = f;
+                        panic!("unwinding past a handshake in progress");
+                    }));
+                } else {
+                    drop(f);
+                }
                 c.done = false;
                 format!("D{k}")
             }
